@@ -11,7 +11,7 @@ PYTHONPATH="$wt" PYTHONDONTWRITEBYTECODE=1 timeout 300 /venv/bin/python "$src/de
 if ! git apply "$src/patch.diff" 2>/var/tmp/seed-$name.apply.log; then
   if ! git apply --3way "$src/patch.diff" 2>>/var/tmp/seed-$name.apply.log; then echo "$name: PATCH DOES NOT APPLY to HEAD"; cleanup; exit 3; fi
 fi
-git diff > /var/tmp/seed-$name.patch
+git diff HEAD > /var/tmp/seed-$name.patch
 PYTHONPATH="$wt" PYTHONDONTWRITEBYTECODE=1 timeout 300 /venv/bin/python "$src/demo.py" >/var/tmp/seed-$name.patched.log 2>&1; rc1=$?
 /verif/tools/baseline.py "$wt" > /var/tmp/seed-$name.tests.log 2>&1; rct=$?
 echo "$name: demo clean rc=$rc0, demo patched rc=$rc1, tests rc=$rct ($(tail -1 /var/tmp/seed-$name.tests.log))"
